@@ -20,10 +20,10 @@ try:
     t = sh(["meson", "test", "-C", os.path.join(wt, "_build")])
     tests = [l.strip() for l in t.stdout.splitlines() if l.startswith(("Ok:", "Fail:", "Expected Fail:", "Timeout:"))]
     tests_ok = b.returncode == 0 and any(l.startswith("Fail:") and l.split()[-1] == "0" for l in tests) and any(l.startswith("Ok:") and l.split()[-1] == "21" for l in tests)
-    d1 = subprocess.run(["timeout", "120", "bash", os.path.join(out, "build_and_run.sh"), x], capture_output=True, text=True, cwd=out)
+    d1 = subprocess.run(["timeout", "120", "bash", os.path.join(out, "build_and_run.sh"), x], capture_output=True, text=True, errors="replace", cwd=out)
 finally:
     sh(["git", "-C", wt, "checkout", "--", "."])
-d0 = subprocess.run(["timeout", "120", "bash", os.path.join(out, "build_and_run.sh"), x], capture_output=True, text=True, cwd=out)
+d0 = subprocess.run(["timeout", "120", "bash", os.path.join(out, "build_and_run.sh"), x], capture_output=True, text=True, errors="replace", cwd=out)
 print("tests with change:", tests, "ok" if tests_ok else "NOT OK")
 print("demo with change: exit", d1.returncode, "| without: exit", d0.returncode)
 valid = tests_ok and d1.returncode != 0 and d0.returncode == 0
